@@ -15,6 +15,7 @@ type SchemeResult struct {
 	Scheme   int    `json:"scheme"`
 	Ballast  bool   `json:"ballast"`  // the scheme adds the oracle-neutral ballast element to every group of both sides
 	Valid    bool   `json:"valid"`    // validation.ValidateManifest(m) == nil
+	CrossOK  bool   `json:"crossok"`  // validation.ValidateManifestWithDeployment(&m, groups) == nil (the verdict field)
 	Cross    string `json:"cross"`    // class of validation.ValidateManifestWithDeployment(&m, groups)
 	CrossGS  string `json:"cross_gs"` // class of the client-side twin validation.ValidateManifestWithGroupSpecs (same loop)
 	ResRej   bool   `json:"resrej"`   // errors.Is(cross error, validation.ErrManifestCrossValidation): "the resource comparison rejects"
@@ -86,6 +87,7 @@ func RunPair(p *Pair, s int) (r SchemeResult, err error) {
 	r.CrossGS = classify(validation.ValidateManifestWithGroupSpecs(&m, groupSpecs(groups)))
 	r.Valid = verr == nil
 	r.Cross = classify(cerr)
+	r.CrossOK = cerr == nil
 	r.ResRej = cerr != nil && errors.Is(cerr, validation.ErrManifestCrossValidation)
 	r.Accepted = verr == nil && cerr == nil
 	if cerr != nil {
